@@ -24,6 +24,8 @@ pub struct SetMon<T: El> {
     pub by_code: BTreeMap<&'static str, u64>,
     /// enforce the per-call work bound (only when C02 is the property under check)
     pub work_rules: bool,
+    /// enforce the release of the old table (only when C03 is the property under check)
+    pub progress_rules: bool,
     pub max_hashes: u64,
 }
 
@@ -31,7 +33,7 @@ impl<T: El> SetMon<T> {
     pub fn new(cap: usize, bh: Bh) -> Self {
         let live_base = ledger_live();
         let set = if cap == usize::MAX { HashSet::with_hasher(bh) } else { HashSet::with_capacity_and_hasher(cap, bh) };
-        SetMon { set, model: BTreeMap::new(), bh, live_base, nops: 0, calls: 0, split_calls: 0, old_hits: 0, by_code: BTreeMap::new(), work_rules: false, max_hashes: 0 }
+        SetMon { set, model: BTreeMap::new(), bh, live_base, nops: 0, calls: 0, split_calls: 0, old_hits: 0, by_code: BTreeMap::new(), work_rules: false, progress_rules: false, max_hashes: 0 }
     }
 
     pub fn locate(&self, k: u64) -> Location {
@@ -97,6 +99,34 @@ impl<T: El> SetMon<T> {
                 }
             }
             self.max_hashes = self.max_hashes.max(hashes);
+        }
+        if self.progress_rules && r.as_ref().map_or(false, |x| x.is_ok()) {
+            use Code::*;
+            let st1 = self.set.verif_state();
+            let l0 = st0.old.as_ref().map(|o| o.table.len);
+            let l1 = st1.old.as_ref().map(|o| o.table.len);
+            // the old table is released as soon as its last element is moved out or removed;
+            // only retain may leave an emptied one behind, and only until the next adding call
+            if let (Some(a), Some(0)) = (l0, l1) {
+                if a > 0 && op.code != SRetain {
+                    viol!("C03", "set {} took the last {} element(s) out of the old table but did not release it", op.encode(), a);
+                }
+            }
+            let adds = matches!(op.code, SInsert | SReplace | SGetOrInsert | SGetOrInsertOwned | SGetOrInsertWith) && !present0;
+            if adds && l1 == Some(0) {
+                viol!("C03", "an empty old table is still allocated after the adding call set {}", op.encode());
+            }
+            if adds {
+                if let Some(a) = l0 {
+                    let want = a - a.min(st0.r);
+                    if l1.unwrap_or(0) != want {
+                        viol!("C03", "set {} left {} elements in the old table, {} were there and R = {}", op.encode(), l1.unwrap_or(0), a, st0.r);
+                    }
+                }
+            }
+            if matches!(op.code, SClear | SDrain | SIntoIter) && st1.old.is_some() {
+                viol!("C03", "old table still allocated after set {}", op.encode());
+            }
         }
         match r {
             Err(p) => {
@@ -552,6 +582,7 @@ fn run_set_ops<T: El>(cfg: &Cfg, ops: &[Op]) -> Result<(), (Viol, usize)> {
     ledger_reset();
     let mut mon: SetMon<T> = SetMon::new(cfg.cap, cfg.bh);
     mon.work_rules = cfg.focus == "C02";
+    mon.progress_rules = cfg.focus == "C03" || cfg.focus.is_empty();
     for (i, op) in ops.iter().enumerate() {
         if let Err(v) = mon.step(op) {
             std::mem::forget(mon);
@@ -588,6 +619,7 @@ fn set_history<T: El>(rng: &mut Rng, cfg: &Cfg, keyspace: u64, n: usize, max_len
     ledger_reset();
     let mut mon: SetMon<T> = SetMon::new(cfg.cap, cfg.bh);
     mon.work_rules = cfg.focus == "C02";
+    mon.progress_rules = cfg.focus == "C03" || cfg.focus.is_empty();
     let mut ops = Vec::new();
     for _ in 0..n {
         let op = set_op(rng, &mon, keyspace, max_len, noforget);
